@@ -24,7 +24,9 @@ class Ctx:
     def tpat(s, n, **kw): return s.mk(s.TP, n, **kw)
 
 # scrutinee type descriptions: 'b' bool, 'i' int32, ('t', [..]) tuple
-ENUM = ('E', [('V0', []), ('V1', ['i']), ('V2', [])])      # enum E { V0, V1(int32), V2 }
+ENUM1 = ('E', [('V0', []), ('V1', ['i']), ('V2', [])])      # enum E { V0, V1(int32), V2 }
+ENUM2 = ('E', [('V0', []), ('V1', ['i', 'i']), ('V2', ['i'])])      # enum E { V0, V1(int32, int32), V2(int32) }: payload fields by position
+ENUM = ENUM1      # set per obligation (ob_match)
 def ty_value(c, t):
     if t == 'b': return c.tybool()
     if t == 'i': return c.tyint()
@@ -54,15 +56,15 @@ class Gen:
         return c.tpat('PTuple', items=PyVec(items), ty=tyv), ('tuple', descs), z3.And(*conds), binds
 
 class EnumVal:
-    def __init__(s, tag, payload): s.tag, s.payload = tag, payload
+    def __init__(s, tag, payload, payload1=None): s.tag, s.payload = tag, payload; s.payloads = [payload, payload1]
 def sym_scrutinee(t, path='s'):
     if t == 'b': return z3.Bool(path)
     if t == 'i': return z3.Int(path)
     if t == 's': return z3.Int(path + '_str')          # string identity: 0,1,2 = "a","b","c"; 3 = any other string
-    if t == 'e': return EnumVal(z3.Int(path + '_tag'), z3.Int(path + '_p'))
+    if t == 'e': return EnumVal(z3.Int(path + '_tag'), z3.Int(path + '_p'), z3.Int(path + '_q'))
     return [sym_scrutinee(x, '%s_%d' % (path, i)) for i, x in enumerate(t[1])]
 def scrut_vars(v):
-    if isinstance(v, EnumVal): return [v.tag, v.payload]
+    if isinstance(v, EnumVal): return [v.tag, v.payload, v.payloads[1]]
     return [v] if not isinstance(v, list) else [y for x in v for y in scrut_vars(x)]
 
 MISSING = -777
@@ -98,7 +100,7 @@ class Eval:
         if n == 'EConstrGet':
             v = s.ev(f['expr'], env)
             if not isinstance(v, EnumVal): raise Unsupported('core evaluator: EConstrGet on a non-enum value')
-            return v.payload
+            return v.payloads[f['field_index']]
         if n == 'ECall':
             fn = f['func']; fn = unbox(fn) if isinstance(fn, Agg) and fn.ty == 'Box' else fn
             if s.CE.variants[fn.idx].name == 'EVar' and ms.pystr(fn.fields[0]) == 'missing': return z3.IntVal(MISSING)
@@ -137,7 +139,9 @@ def dump_value(v, depth=0):
     if isinstance(v, (list, tuple)): return tuple(dump_value(x, depth + 1) for x in v)
     return str(v)[:80]
 
-def ob_match(r, tier, seed, sty, rows, depth, bind_row=None, flat=False, force0=None, unit_result=False, hash_symbolic=False):
+def ob_match(r, tier, seed, sty, rows, depth, bind_row=None, flat=False, force0=None, unit_result=False, hash_symbolic=False, enum2=False):
+    global ENUM
+    ENUM = ENUM2 if enum2 else ENUM1
     W = e2.fresh_world(CRATES); c = Ctx(W)
     if hash_symbolic: W.hash_order = 'symbolic'
     nl = rows * 4
@@ -187,8 +191,8 @@ def ob_match(r, tier, seed, sty, rows, depth, bind_row=None, flat=False, force0=
                 EC = W.tt.find_adt(['common', 'EnumConstructor'], 'compiler'); CO = W.tt.find_adt(['common', 'Constructor'], 'compiler'); TI = W.tt.find_adt(['tast', 'TastIdent'], 'compiler')
                 con = Agg(CO.key, CO.vindex('Enum'), [Agg(EC.key, 0, [Agg(TI.key, 0, [mkstr(ENUM[0])]), Agg(TI.key, 0, [mkstr(vname)]), idx])])
                 subs, ds, cs, bs = [], [], [sval.tag == idx], []
-                for st in vargs:
-                    p_, d_, cn, b = pat(st, sval.payload, d - 1, row); subs.append(p_); ds.append(d_); cs.append(cn); bs += b
+                for j_, st in enumerate(vargs):
+                    p_, d_, cn, b = pat(st, sval.payloads[j_], d - 1, row); subs.append(p_); ds.append(d_); cs.append(cn); bs += b
                 return c.tpat('PConstr', constructor=con, args=PyVec(subs), ty=tyv), '%s(%s)' % (vname, ', '.join(map(str, ds))), z3.And(*cs), bs
             if k == 'lit':
                 lv = lit_for(t)
@@ -276,6 +280,8 @@ def _obligations_matrix():
         Ob('O6.1-boolint-4-flat', 'match compiler == first-match, (bool,int32), 4 rows of (wildcard|literal, wildcard|literal)', ob_match, ('quick', 'thorough'), 10, dict(sty=TBI, rows=4, depth=1, flat=True)),
         Ob('O6.1-intint-4-flat', 'match compiler == first-match, (int32,int32), 4 rows of (wildcard|literal, wildcard|literal)', ob_match, ('quick', 'thorough'), 10, dict(sty=('t', ['i', 'i']), rows=4, depth=1, flat=True)),
         Ob('O6.1-intintbool-3-flat', 'match compiler == first-match, (int32,int32,bool), 3 flat rows', ob_match, ('quick', 'thorough'), 10, dict(sty=('t', ['i', 'i', 'b']), rows=3, depth=1, flat=True)),
+        Ob('O6.1-enum2-3', 'match compiler == first-match, enum E { V0, V1(int32, int32), V2(int32) } scrutinee, 3 rows (payload fields bound by position)', ob_match, ('quick', 'thorough'), 20, dict(sty='e', rows=3, depth=1, enum2=True)),
+        Ob('O6.1-boolenum2-2-flat', 'match compiler == first-match, (bool, E) with two-field payloads, 2 flat rows', ob_match, ('quick', 'thorough'), 10, dict(sty=('t', ['b', 'e']), rows=2, depth=2, flat=True, enum2=True)),
         Ob('O6.1-enum-3-unit', 'unit-typed match on enum E: an unmatched variant must fail, not continue', ob_match, ('quick', 'thorough'), 10, dict(sty='e', rows=3, depth=1, unit_result=True)),
         Ob('O6.1-boolint-2-unit', 'unit-typed match on (bool,int32), 2 rows', ob_match, ('quick', 'thorough'), 5, dict(sty=TBI, rows=2, depth=1, unit_result=True)),
         Ob('O6.1-str-3', 'match compiler == first-match, string scrutinee, 3 rows over the literals "a" "b" "c"', ob_match, ('quick', 'thorough'), 5, dict(sty='s', rows=3, depth=0)),
